@@ -894,6 +894,61 @@ Fixpoint walk_ddl (dd : ddocs) (steps : list (sctx * sop)) (obs : list ostep) : 
 
 Definition chk_C11_ddocs (t : scase * list ostep) : bool := walk_ddl [] (sc_steps (fst t)) (snd t).
 
+(* C11, views: what a view of one collection answers does not change while only OTHER collections are written to,
+   given design documents, queried, dropped or created.  The walk remembers, per (collection, design document, view,
+   parameters), the last answer and whether that query had brought the index up to date; a step that addresses the
+   collection - or one that may touch every collection (purge, an expiry sweep, reopen) - forgets it.  A later query
+   with the same parameters must then answer the same: a stale one always, one that updates the index first if the
+   remembered query had updated it too (otherwise documents that were pending then are mapped now). *)
+Definition ojson_eqb (a b : option json) : bool := ostr_eqb (option_map jprint a) (option_map jprint b).
+Definition vp_same (a b : vparams) : bool :=
+  Bool.eqb (vp_descending a) (vp_descending b)
+  && match vp_limit a, vp_limit b with Some x, Some y => x =? y | None, None => true | _, _ => false end
+  && ojson_eqb (vp_startkey a) (vp_startkey b) && ojson_eqb (vp_endkey a) (vp_endkey b)
+  && Bool.eqb (vp_inclusive_end a) (vp_inclusive_end b) && ojson_eqb (vp_key a) (vp_key b)
+  && Bool.eqb (vp_reduce a) (vp_reduce b).
+
+Record vmem := mkVmem { vm_coll : string; vm_ddoc : string; vm_view : string; vm_p : vparams; vm_rows : list string; vm_fresh : bool }.
+
+Definition vm_is (c d v : string) (p : vparams) (m : vmem) : bool :=
+  String.eqb (vm_coll m) c && String.eqb (vm_ddoc m) d && String.eqb (vm_view m) v && vp_same (vm_p m) p.
+
+Definition vmem_after (mem : list vmem) (o : sop) (ob : ostep) : list vmem :=
+  let forget c := filter (fun m => negb (String.eqb (vm_coll m) c)) mem in
+  match o with
+  | SKv c _ _ | SDropColl c | SCreateColl c | SPutDDoc c _ _ | SDelDDoc c _ | SDraw c _ _ _ => forget c
+  | SView c d v p =>
+      match os_resp ob with
+      | RRows rows =>
+          (* a query that updates the view's index changes what stale queries of that view with other parameters answer *)
+          mkVmem c d v p rows (negb (vp_stale p))
+          :: filter (fun m => negb (if vp_stale p then vm_is c d v p m
+                                    else String.eqb (vm_coll m) c && String.eqb (vm_ddoc m) d && String.eqb (vm_view m) v)) mem
+      | _ => forget c
+      end
+  | SDump _ _ | SDumpKeys _ _ | SQuery _ _ | SGetDDocs _ => mem
+  | SPurge | SReopen | SExpire | SExpireScan _ | SExpireK _ _ _ => []
+  end.
+
+Definition chk_step_vmem (mem : list vmem) (o : sop) (ob : ostep) : bool :=
+  match o, os_resp ob with
+  | SView c d v p, RRows rows =>
+      match filter (vm_is c d v p) mem with
+      | m :: _ => if vp_stale p || vm_fresh m then strs_eqb' rows (vm_rows m) else true
+      | [] => true
+      end
+  | _, _ => true
+  end.
+
+Fixpoint walk_vmem (mem : list vmem) (steps : list (sctx * sop)) (obs : list ostep) : bool :=
+  match steps, obs with
+  | [], [] => true
+  | (x, o) :: ss, ob :: os => chk_step_vmem mem o ob && walk_vmem (vmem_after mem o ob) ss os
+  | _, _ => false
+  end.
+
+Definition chk_C11_views (t : scase * list ostep) : bool := walk_vmem [] (sc_steps (fst t)) (snd t).
+
 (* ------------------------------------------------------------------------------------------ *)
 (* C10: what a bucket shows when it is reopened after the process was killed                     *)
 
